@@ -122,6 +122,12 @@ type zzSentRec struct {
 	desc      string
 }
 
+type zzFwdRec struct {
+	hash  lntypes.Hash
+	id    uint64
+	epoch int
+}
+
 type zzDeferred struct {
 	hash lntypes.Hash
 	conn int
@@ -152,6 +158,13 @@ type zzSim struct {
 	// observed at the transport
 	settleDeliveredToBob map[lntypes.Hash]bool
 	bobIn                [2]map[uint64]lntypes.Hash // adds delivered to Bob: conn -> htlc id -> hash
+	// C07 at the wire ("each incoming HTLC is forwarded at most once"): adds
+	// Bob offered on a connection since his last commit_sig there (an add no
+	// signature covers is dropped by a reconnect and its id is used again,
+	// so only signed adds count), and the distinct outgoing htlc ids Bob has
+	// signed for each payment hash.
+	bobUnsignedFwd [2][]zzFwdRec
+	bobSignedFwd   map[lntypes.Hash]map[[2]uint64]bool
 
 	initHold [3]lnwire.MilliSatoshi
 
@@ -160,6 +173,7 @@ type zzSim struct {
 	crashArmed         bool
 	midCutArmed        bool
 	midCuts            int // cuts that landed inside a write so far
+	lastMidCutStep     int
 	midCutConn         int // connection whose Bob-side link was told to stop inside a write (-1: none)
 	paysDoneAfterFault int
 	stepNo             int
@@ -286,6 +300,7 @@ func (s *zzSim) run() {
 	s.payByHash = map[lntypes.Hash]*zzPay{}
 	s.settleDeliveredToBob = map[lntypes.Hash]bool{}
 	s.bobIn = [2]map[uint64]lntypes.Hash{{}, {}}
+	s.bobSignedFwd = map[lntypes.Hash]map[[2]uint64]bool{}
 	s.firstFaultAt = -1
 	zzL(r, "config: %s", s.cfg)
 
@@ -551,6 +566,38 @@ func (s *zzSim) bobSends(conn int, m lnwire.Message) {
 		}
 		s.fwdChecks = append(s.fwdChecks, zzDeferred{hash: p.hash, conn: 1 - conn, what: fmt.Sprintf("add(id=%d)", x.ID)})
 		s.stat["probe_bob_forwards_add"]++
+		s.bobUnsignedFwd[conn] = append(s.bobUnsignedFwd[conn], zzFwdRec{hash: p.hash, id: x.ID, epoch: s.conns[conn].epoch})
+	case *lnwire.CommitSig:
+		// Every add Bob offered on this connection since his last signature
+		// (and since the connection came up) is now covered by a signature:
+		// the forward has happened. One incoming HTLC must never lead to two.
+		for _, f := range s.bobUnsignedFwd[conn] {
+			if f.epoch != s.conns[conn].epoch {
+				continue
+			}
+			ids := s.bobSignedFwd[f.hash]
+			if ids == nil {
+				ids = map[[2]uint64]bool{}
+				s.bobSignedFwd[f.hash] = ids
+			}
+			ids[[2]uint64{uint64(conn), f.id}] = true
+			in := 0
+			for c := 0; c < 2; c++ {
+				for _, h := range s.bobIn[c] {
+					if h == f.hash {
+						in++
+					}
+				}
+			}
+			if len(ids) > in {
+				s.parkViolation("double-forward", "Bob has signed %d distinct outgoing HTLCs for %s (latest: id=%d on connection %d) although only %d incoming HTLC(s) with that hash were ever offered to him: one incoming HTLC was handed to the outgoing channel more than once",
+					len(ids), s.payByHash[f.hash], f.id, conn, in)
+			}
+			if len(ids) > 1 {
+				s.stat["probe_same_hash_forwarded_under_two_ids"]++
+			}
+		}
+		s.bobUnsignedFwd[conn] = s.bobUnsignedFwd[conn][:0]
 	}
 }
 
@@ -602,6 +649,7 @@ func (s *zzSim) step() {
 		r.Kind(fmt.Sprintf("cut-inside-write:%d", mc))
 		r.Count("fault_cut_inside_write")
 		s.midCuts++
+		s.lastMidCutStep = s.stepNo
 		s.faultCut(mc)
 		return
 	}
@@ -624,7 +672,14 @@ func (s *zzSim) step() {
 			faults = append(faults, zzOp{3, "crash-bob", func() { s.faultArmCrash() }})
 		}
 		if s.netIdle() {
-			faults = append(faults, zzOp{2, "time:long", func() { s.faultLongTime() }})
+			w := 2
+			if s.midCuts > 0 && s.stepNo-s.lastMidCutStep <= 4 {
+				// a link was just torn down inside one of its writes: what
+				// it left half done (mailbox, circuit map) meets the timers
+				// that run while the link is away (mailbox expiry)
+				w = 12
+			}
+			faults = append(faults, zzOp{w, "time:long", func() { s.faultLongTime() }})
 		}
 		faults = append(faults, zzOp{1, "fee-change", func() { s.faultFeeChange() }})
 	}
@@ -752,6 +807,15 @@ func (s *zzSim) advance(d time.Duration) {
 		time.Sleep(x)
 		d -= x
 		s.quiesce()
+		if s.nodes[zzB].kv.Fenced() {
+			// Bob crashed while time was passing (an armed crash met a
+			// write triggered by a timer). The rest of the interval is
+			// dropped: a peer that waits long enough for a dead node
+			// rightly reports "remote unresponsive", which is not what
+			// this simulation judges; the next step reboots Bob.
+			zzL(s.r, "    Bob crashed while time was passing; %v of the interval dropped", d)
+			return
+		}
 		if d > 0 {
 			s.settleNetwork()
 		}
@@ -1232,9 +1296,16 @@ func (s *zzSim) faultArmMidCut(conn int) {
 	r := s.r
 	bob := s.nodes[zzB]
 	k := 1 + r.Draw(8)
+	// Whether the link's own goroutine sees the quit signal at its very next
+	// look (the disconnect won the race) or only when it next blocks is the
+	// runtime's choice in a real process; here the tape decides: in half of
+	// the cuts the quit channel is closed on the writing goroutine itself,
+	// before the write call returns. (Drawn last in this step: older replay
+	// files yield 0 = the goroutine-of-its-own behaviour.)
+	quitNow := r.Draw(2) == 1
 	s.midCutArmed = true
 	s.noteFault("cut_inside_write_armed")
-	zzL(r, "ARM cut of connection %d inside Bob's write #%d from now", conn, k)
+	zzL(r, "ARM cut of connection %d inside Bob's write #%d from now (quit visible at once: %v)", conn, k, quitNow)
 	bob.kv.AfterWrite(k, func() {
 		s.mu.Lock()
 		s.midCutArmed = false
@@ -1249,6 +1320,12 @@ func (s *zzSim) faultArmMidCut(conn int) {
 		zl := s.nodes[zzB].links[conn]
 		sw := s.nodes[zzB].sw
 		s.mu.Unlock()
+		if quitNow {
+			zl.link.cg.Quit()
+			s.mu.Lock()
+			s.stat["fault_cut_inside_write_quit_visible_at_once"]++
+			s.mu.Unlock()
+		}
 		// what peer.Disconnect does: take the link out of the switch's
 		// index, then stop it (on its own goroutine: the caller of this
 		// hook is a goroutine RemoveLink/Stop waits for)
